@@ -556,7 +556,10 @@ def run(ctx):
             lambda: ctx.hyp(example_case(names), lambda c: check_case(c, ctx), b["ex"], "examples"),
             lambda: ctx.hyp(gen_case(False), lambda c: check_case(c, ctx), b["gen"], "generated"),
             lambda: ctx.hyp(gen_case(True), lambda c: check_case(c, ctx), b["gen_all"], "generated_all_cuts")]
-    for leg in legs:
+    only = os.environ.get("VERIF_C04_LEGS")        # development switch (sensitivity of a single leg), e.g. "23"
+    for i, leg in enumerate(legs):
+        if only and str(i) not in only:
+            continue
         leg()
         if ctx.failures:        # the verdict of this shard is known; do not spend the budget on shrinking more failures
             break
